@@ -49,5 +49,7 @@ SCHEMA = {
                            # ghost mirror of the read-only property `alignedPairs` (see specs/hitenum.py)
                            'alignedPairs': LIST(PAIR)},
     'AlignmentSegmentsWithResolvedConflicts': {'segments': LIST(SEG)},
+    'MultipleAlignmentResultRowsMessage': {'messages': LIST(OBJ('AlignmentResultRowMessage'))},
+    '_WorkflowCoordinator': {'peaksSelector': OBJ('PeaksSelector'), 'dispatcher': OBJ('Dispatcher'), 'aligner': OBJ('Aligner')},
     'SequenceGenerator': {'resolution': INT, 'blurRadius': INT},
 }
